@@ -44,3 +44,6 @@ CLAIMED['C12'] = (_FSM, _SCHED_TXT, _BASE_NOTE, 'DESIGN.md section 5 C12')
 CLAIMED['C16'] = (
     'CrossHair+z3 program-shaped exploration: (factory-kind subset, injected violation, position) as z3 selectors, exhausted; real tools.compliant._verify (rule_01..11) and dag.Construct/schedule.build/periodics run on each generated package',
     'The generated package space (15 kind subsets x 21 conditions x positions) is exhausted; the solver steers the combinations, the rules run concretely.', _BASE_NOTE, 'DESIGN.md section 5 C16')
+CLAIMED['C02'] = (
+    _SCHED + '; end-to-end clause: the same with real worker execution (worker.Context.run -> Task.do -> shelve store) and comparison with a from-scratch evaluation at quiescence',
+    _SCHED_TXT, _BASE_NOTE, 'DESIGN.md section 3 C02')
